@@ -52,6 +52,7 @@ func genC08(t *rapid.T) C08Case {
 			vals[i] = fmt.Sprintf("cn=group-%04d,ou=groups,dc=example,dc=com", i)
 		}
 		a := &g.Model.Assertions[rapid.IntRange(0, len(g.Model.Assertions)-1).Draw(t, "bigIn")]
+		a.HasAttrStmt = true
 		a.Attrs = append(a.Attrs, h.AttrModel{Name: "memberOf-large-list", Values: vals})
 	}
 	c := C08Case{SP: sp, Issue: g}
